@@ -213,6 +213,37 @@ theorem C08_gen_facts :
     Pyro.Gen.C08.knownSerializerIds = [1, 2, 3, 4] ∧
     Pyro.Gen.C08.marshalId = marshalId := by decide
 
+/-! ### the except-ladder of handleRequest, regenerated from the source, agrees with the model -/
+
+/-- class membership of the model's exception classes, as the source's `isinstance` tests see them -/
+def excBitsOf : Exc → Bool × Bool × Bool × Bool      -- (ConnectionClosed, Serialize, Communication, Security)
+  | .generic => (false, false, false, false)
+  | .serialize => (false, true, true, false)
+  | .connClosed => (true, false, true, false)
+  | .commOther => (false, false, true, false)
+  | .security => (false, false, false, true)
+
+def excName : Exc → String
+  | .generic => "generic" | .serialize => "serialize" | .connClosed => "connClosed"
+  | .commOther => "commOther" | .security => "security"
+
+/-- **C08_gen_except_rule.**  `exceptSends` / `exceptReraises` are translated on every run from the
+    `except Exception as xv:` handler of `Daemon.handleRequest`, and `excBits` from `issubclass` on
+    `Pyro5.errors`.  For every exception class a method may raise, every callback flag and the oneway
+    flag, the model's `handleRequest` sends an error reply exactly when the translated rule says so
+    and reports `raised` (the transports then close the connection) exactly when the translated rule
+    re-raises. -/
+theorem C08_gen_except_rule (e : Exc) (cb ser : Bool) (tok seq sid : Nat) (hk : knownSerializer sid = true) :
+    (Pyro.Gen.C08.excBits.lookup (excName e) = some (excBitsOf e)) ∧
+    let bits := excBitsOf e
+    let md : Method := { token := tok, outcome := .raises e ser, isCallback := cb }
+    let r := handleRequest (.msg { type := MSG_INVOKE, serId := sid, seq := seq, oneway := false, body := .call (.method md) })
+    r.reply.isSome = Pyro.Gen.C08.exceptSends cb false bits.1 bits.2.1 bits.2.2.1 bits.2.2.2 ∧
+    r.raised = Pyro.Gen.C08.exceptReraises cb false bits.1 bits.2.1 bits.2.2.1 bits.2.2.2 := by
+  refine ⟨by cases e <;> decide, ?_⟩
+  simp only [handleRequest, MSG_INVOKE, MSG_PING, hk]
+  cases e <;> cases cb <;> simp [excBitsOf, Pyro.Gen.C08.exceptSends, Pyro.Gen.C08.exceptReraises, errReply]
+
 /-! ### non-vacuity -/
 private def okShake : Item := .msg { type := 1, serId := 2, seq := 7, body := .handshake true true .accept }
 private def call9 : Item := .msg { type := 4, serId := 2, seq := 8, body := .call (.method { token := 9, outcome := .returns .ok }) }
